@@ -467,6 +467,13 @@ def _after_select(case, ctx, cfg, kind, f, img, mask, t, nwarn, rows_open, cols,
     conv = convolve(img, kd, mode='constant', cval=0.0)
     thr_eff = cfg['threshold'] * K.relerr if kind == 'dao' else cfg['threshold']
     ms = f.min_separation
+    if kind == 'iraf' and not cfg['min_separation']:
+        # documented default: int(fwhm * minsep_fwhm + 0.5), at least 2
+        exp_ms = max(2, int(cfg['fwhm'] * 2.5 + 0.5))
+        require(ms == exp_ms, 'default_min_separation',
+                f'iraf: min_separation {ms} for fwhm {cfg["fwhm"]}, documented '
+                f'int(fwhm * 2.5 + 0.5) = {exp_ms}')
+        ms = exp_ms
     if ms == 0:
         fp = km
     else:
@@ -564,7 +571,7 @@ def star_cases(draw):
     kind = draw(st.sampled_from(['dao', 'dao', 'iraf', 'star']))
     wide = draw(st.booleans())
     cfg = {'kind': kind, 'threshold': draw(st.sampled_from([2.0, 5.0, 10.0])),
-           'fwhm': draw(st.sampled_from([2.0, 3.0, 3.5, 5.0])),
+           'fwhm': draw(st.sampled_from([2.0, 3.0, 3.5, 5.0, 2.6, 1.8])),
            'ratio': draw(st.sampled_from([1.0, 1.0, 0.7, 0.4])),
            'kshape': draw(st.sampled_from([[7, 7], [7, 7], [5, 9], [9, 5]])),
            'theta': draw(st.sampled_from([0.0, 30.0])),
